@@ -286,6 +286,23 @@ impl JsonSchema for Unser {
     }
 }
 
+/// … and one whose serialisation fails only after part of the output was produced
+/// (the leading members are written before the failing one is reached).
+#[derive(Serialize, JsonSchema)]
+struct UnserLate {
+    name: String,
+    size: u32,
+    bad: Unser,
+}
+fn unser_late() -> UnserLate {
+    UnserLate { name: "broken".into(), size: 7, bad: Unser }
+}
+/// Alternate between the two failing bodies (same expected outcome: refused, nothing sent).
+fn late_turn() -> bool {
+    static N: std::sync::atomic::AtomicUsize = std::sync::atomic::AtomicUsize::new(0);
+    N.fetch_add(1, std::sync::atomic::Ordering::SeqCst) % 2 == 1
+}
+
 #[derive(Serialize, JsonSchema)]
 struct H1 {
     x_one: String,
@@ -407,7 +424,13 @@ fn run_tr(kind: &str, wrapped: bool, body: &BodyVal, d: &Decl, ops: &[Op]) -> Re
                     }
                 }
                 BodyVal::Unser => {
-                    if wrapped {
+                    if late_turn() {
+                        if wrapped {
+                            with_headers($ctor(unser_late()), d, ops)
+                        } else {
+                            $ctor(unser_late()).to_result()
+                        }
+                    } else if wrapped {
                         with_headers($ctor(Unser), d, ops)
                     } else {
                         $ctor(Unser).to_result()
